@@ -148,6 +148,8 @@ func C08(p *load.Prog, r *oblig.Run) {
 		addPurityObligations(p, r, "R08.a", root, res, "read-only diff operation "+load.FuncName(root))
 	}
 	c08Accounts(p, r)
+	// children are matched with Equals: a node that is not equal to its own copy cannot give an all-two-sided diff
+	c07PairSearch(p, r)
 	// R08.b
 	cn := roots[0]
 	a := e4.New(p, g, cn)
@@ -195,6 +197,8 @@ func C09(p *load.Prog, r *oblig.Run) {
 	r.Rule("R09.b", "merging performs no structural write on either input", 2)
 	c09TypedNil(p, r)
 	c09Accounts(p, r)
+	// merging matches children with Equals (C07's pair-search rules)
+	c07PairSearch(p, r)
 	r.Rule("R09.c", "a merge function returns nil or a node computed from both operands (nothing of the right node is dropped by a shortcut)", 1)
 	g := cg.New(p, false)
 	mn := p.MustFunc(load.PkgRoot, "MergeNodes")
@@ -337,6 +341,7 @@ func C07(p *load.Prog, r *oblig.Run) {
 	r.Rule("R07.d", "the family links of copied HUSB/WIFE/CHIL nodes lead to families made by the copy, never to the source's", 1)
 	r.Rule("R07.e", "DeepEqual answers true only after the numbers of children of both nodes were compared (or both found zero)", 1)
 	c07EqualShortcuts(p, r)
+	c07PairSearch(p, r)
 	g := cg.New(p, false)
 	dc := p.MustFunc(load.PkgRoot, "DeepCopy")
 	fl := p.MustFunc(load.PkgRoot, "Filter")
